@@ -298,7 +298,7 @@ def natural_world_failure(trace: dict, sim, outs) -> bool:
                 for o in outs:
                     for snap in o.snaps.values():
                         for t in snap:
-                            if not bool(torch.isfinite(t).all()) or float(t.abs().max()) > 1e12:
+                            if t.numel() and (not bool(torch.isfinite(t).all()) or float(t.abs().max()) > 1e12):
                                 return True
     return False
 
